@@ -113,7 +113,7 @@ EDIT_OPS = {1: 'AddItemToArray', 2: 'AddItemToObject', 3: 'AddItemToObjectCS', 4
             17: 'ReplaceItemInObjectCaseSensitive', 18: 'queries', 19: 'setters', 20: 'AddKindToObject'}
 for op, name in EDIT_OPS.items():
     for K in (2, 3, 4):
-        QM(('C06', 'C07', 'C08') + (('C20',) if K == 2 else ()), 'edit.%s.K%d' % (name, K), 'harness/edit.c', defs=['-DOP=%d' % op, '-DK=%d' % K], unwind=K + 3,
+        QM(('C06', 'C07', 'C08') + (('C20',) if K == 2 else ()) + (('C14',) if K == 2 and op in (2, 3, 16) else ()), 'edit.%s.K%d' % (name, K), 'harness/edit.c', defs=['-DOP=%d' % op, '-DK=%d' % K], unwind=K + 3,
            unwindset=ML(K + 4, 60) + ['cJSON_Delete:2', 'cJSON_Delete.0:3', 'vf_build_rec:3', 'vf_memcpy.0:66', 'vf_strcpy.0:8', 'strlen.0:6', 'strcmp.0:6', 'strcpy.0:6', 'memcmp.0:4', 'check_list.0:%d' % (K + 3)],
            tiers=('quick', 'thorough') if K in (2, 3) else ('thorough',), cost=K * 5, functions=['cJSON_' + name if op < 18 else name, 'add_item_to_array', 'add_item_to_object', 'create_reference', 'get_array_item', 'get_object_item', 'cJSON_Delete', 'cJSON_strdup'])
 CRFN = ['cJSON_CreateNull', 'cJSON_CreateTrue', 'cJSON_CreateFalse', 'cJSON_CreateBool', 'cJSON_CreateNumber', 'cJSON_CreateString', 'cJSON_CreateRaw', 'cJSON_CreateArray', 'cJSON_CreateObject',
@@ -174,7 +174,7 @@ for K in (2, 3, 4):
 PATCHFN = ['apply_patch', 'decode_patch_operation', 'detach_path', 'decode_pointer_inplace', 'decode_array_index_from_pointer', 'detach_item_from_array', 'insert_item_in_array', 'overwrite_item', 'cJSONUtils_strdup', 'get_object_item',
            'cJSON_AddItemToArray', 'cJSON_AddItemToObject', 'cJSON_DeleteItemFromObjectCaseSensitive', 'cJSON_DetachItemFromObjectCaseSensitive', 'cJSON_Delete']
 for opc, nm in ((1, 'add'), (2, 'remove'), (3, 'replace'), (4, 'move'), (5, 'copy'), (6, 'test'), (0, 'invalid')):
-    QM(('C16',), 'patchunit.%s' % nm, 'harness/patch_unit.c', defs=['-DOPC=%d' % opc], unwind=7, link=['cJSON.c'], stub=['get_item_from_pointer', 'compare_json'], stub_lib='cJSON_Utils.c',
+    QM(('C16',) + (('C14',) if nm in ('add', 'remove') else ()), 'patchunit.%s' % nm, 'harness/patch_unit.c', defs=['-DOPC=%d' % opc], unwind=7, link=['cJSON.c'], stub=['get_item_from_pointer', 'compare_json'], stub_lib='cJSON_Utils.c',
        unwindset=ML(8, 80) + ['cJSON_Delete:1', 'cJSON_Delete.0:4', 'strcmp.0:8', 'strlen.0:7', 'vf_memcpy.0:66', 'strncmp.0:7', 'strrchr.0:7', 'strcpy.0:8', 'vf_strcpy.0:10', 'get_object_item.0:5', 'get_object_item.1:5'], cost=20, functions=PATCHFN, timeout=1500)
 QM(('C16', 'C17', 'C18', 'C19'), 'cmpjson.K2', 'harness/cmpjson.c', defs=['-DK=2'], unwind=4, link=['cJSON.c'], stub=['compare_json'], stub_lib='cJSON_Utils.c', unwindset=ML(5, 60) + ['sort_list:1', 'strcmp.0:3', 'check_wf.0:4', 'check_wf.1:4', 'check_wf.2:4', 'build.0:4'],
    cost=30, functions=['compare_json', 'sort_object', 'sort_list', 'compare_strings', 'compare_double'], timeout=1500)
